@@ -16,6 +16,11 @@
 (*                     anchor: r = "equation": Equation(lhs, rhs=text)                *)
 (*                     .ReplaceTokensFromLookup(dict(m)); r = "block": the equation   *)
 (*                     inside an EquationBlock, EquationBlock.ReplaceTokensFromLookup.*)
+(*                     r = "shared_block" / "shared_each": the Term objects of the    *)
+(*                     text (Equation.ParseString) are handed to TWO equations of one *)
+(*                     block, which is renamed through the block / equation after     *)
+(*                     equation; every owner must see the map applied exactly once    *)
+(*                     (a swap swaps in both, a chain moves one step in both).        *)
 (*                     The result is the equation's right-hand side.  An Equation may *)
 (*                     store its text in a normal form (a leading + or redundant      *)
 (*                     brackets of a one- or two-factor term dropped - C12's subject):*)
@@ -52,7 +57,7 @@ CONSTANTS
     BinOps,         \* binary operator texts
     Maps,           \* set of renaming maps (sequences of [from, to])
     OnePairs,       \* set of [target, repl] for RenameOne
-    Routes,         \* callers through which Rename is also made: subset of {"equation", "block"}
+    Routes,         \* callers through which Rename is also made: subset of AllRoutes
     MaxUnits,       \* budget of Push/Lag steps (closing brackets are free)
     MinUnits,       \* calls are made on expressions of at least this many steps (0 except in -simulate)
     MaxDepth,       \* bound on bracket nesting
@@ -64,6 +69,8 @@ CONSTANTS
 
 Tok(k, t) == [kind |-> k, text |-> t]
 IsName(t) == t.kind = "NAME"
+AllRoutes == {"equation", "block", "shared_block", "shared_each"}
+SharedRoutes == {"shared_block", "shared_each"}     \* two equations built from the same Term objects
 TokNL == Tok("NL", "NL")                \* line break inside brackets
 TokNewline == Tok("NEWLINE", "NL")      \* end of a logical line that is followed by another one
 
@@ -81,6 +88,7 @@ NumericWords == {"inf", "nan", "NaN", "Infinity", "INF", "j"}
 ASSUME Names \subseteq Universe
 ASSUME NumericWords \subseteq Universe
 ASSUME Signs \subseteq {"-", "+"}
+ASSUME Routes \subseteq AllRoutes
 
 (* integer literals of the arithmetic fragment *)
 IntLit(s) == CASE s = "1" -> 1 [] s = "0x1f" -> 31 [] s = "2" -> 2 [] OTHER -> 0
